@@ -34,6 +34,7 @@ type Env struct {
 	depth          int
 	inAxiom        bool
 	keepUniversals bool
+	aliasing       bool // resolving a renamed parameter (no second alias step)
 	guard          []Term // conditions under which the expression being evaluated is asserted
 	noUniv         bool   // inside a negation / equivalence: foralls here are not facts to retain
 	target         *State // state that records universals (the live path state)
@@ -444,6 +445,23 @@ func (e *Env) ident(name string) EVal {
 	u := e.u
 	if v, ok := e.lookupVar(name); ok {
 		return v
+	}
+	// a parameter that was renamed since the contracts were written: the contract's
+	// name still denotes the parameter at the same position (baseline/params.json)
+	if !e.aliasing && e.fn != nil {
+		if nn, ok := u.P.paramAlias[e.fn][name]; ok {
+			sub := *e
+			sub.aliasing = true
+			suffix := ""
+			base := name
+			for _, sfx := range []string{"$entry", "$captured"} {
+				if strings.HasSuffix(name, sfx) {
+					base, suffix = strings.TrimSuffix(name, sfx), sfx
+				}
+			}
+			_ = base
+			return sub.ident(nn + suffix)
+		}
 	}
 	// name$captured: the captured variable of that name (when a local shadows it)
 	if strings.HasSuffix(name, "$captured") && e.fr != nil {
